@@ -18,7 +18,10 @@ import vfcore as vf
 RULE = ("trajectory cases: 1..200 beads, 1..6 frames, coordinates of both "
         "signs up to the format's field width (incl. values exactly on and "
         "half-way between printed digits), open/orthorhombic/GROMACS-reduced "
-        "triclinic boxes, +/- velocities/forces; written through "
+        "triclinic boxes (each of the tilts b_x, c_x, c_y zero with "
+        "probability 1/2, the 7 non-empty patterns x {positive, negative, "
+        "boundary +-edge/2, weak 1e-6..1e-2 of the edge} enumerated at the "
+        "start of every shard), +/- velocities/forces; written through "
         "TrjWriterFactory, read back through TrjReaderFactory (driven like "
         "CsgApplication) and TopReaderFactory; DL_POLY: one fresh process "
         "per case; atom-count-mismatch frames each read in a fresh process; "
@@ -78,7 +81,7 @@ STORES_VEL = ("gro", "dump", "dlph")
 STORES_FRC = ("dump", "dlph")
 
 
-def _gen_chain(rng, a, b, tric=None, wide=True, window=False):
+def _gen_chain(rng, a, b, tric=None, wide=True, window=False, pattern=None):
     nmol, nb = rng.randint(1, 4), rng.randint(1, 5)
     n = nmol * nb
     case = {"a": a, "b": b, "nmol": nmol, "nb": nb, "n": n,
@@ -102,11 +105,24 @@ def _gen_chain(rng, a, b, tric=None, wide=True, window=False):
         L = [round(rng.uniform(1.0, 20.0), 3) for _ in range(3)]
         box = [[L[0], 0, 0], [0, L[1], 0], [0, 0, L[2]]]
         if case["tric"]:
-            box[0][1] = round(rng.uniform(-0.5, 0.5) * L[0], 3)
-            box[0][2] = round(rng.uniform(-0.5, 0.5) * L[0], 3)
-            box[1][2] = round(rng.uniform(-0.5, 0.5) * L[1], 3)
-            if box[0][1] == 0:
-                box[0][1] = 0.25
+            # sparse tilt patterns: bit 0 b_x, bit 1 c_x, bit 2 c_y
+            pat = pattern if pattern else rng.randint(1, 7)
+            case["tilt_pattern"] = "b_x%s c_x%s c_y%s" % tuple(
+                "!=0" if pat & (1 << k) else "=0" for k in range(3))
+
+            def tilt(lim):
+                c = rng.randint(0, 5)
+                v = (0.5 * lim if c == 0 else -0.5 * lim if c == 1 else
+                     rng.choice((-1, 1)) * 10 ** rng.uniform(-4, -2) * lim
+                     if c == 2 else rng.uniform(-0.5, 0.5) * lim)
+                v = round(v, 3)
+                return v if v != 0 else 0.001
+            if pat & 1:
+                box[0][1] = tilt(L[0])
+            if pat & 2:
+                box[0][2] = tilt(L[0])
+            if pat & 4:
+                box[1][2] = tilt(L[1])
         # values lie on the grid of format a (in a's file units) so that the
         # generated file *is* the data
         if a == "gro":
@@ -473,7 +489,10 @@ def run(chk):
         a, b = pairs[i % len(pairs)]
         # a=gro: alternate orthorhombic / triclinic boxes
         chains.append(_gen_chain(rng, a, b, (i // len(pairs)) % 2 == 0,
-                                 wide=(b != "xyz" or (i // len(pairs)) % 3 == 2)))
+                                 wide=(b != "xyz" or (i // len(pairs)) % 3 == 2),
+                                 # c_y-only and b_x-only first, for gro->gro
+                                 pattern=(4, 1, 2, 3, 5, 6, 7)[
+                                     (i // (2 * len(pairs)) + i % len(pairs)) % 7]))
     for i in range(n_window):
         a, b = pairs[i % len(pairs)]
         # rectangular boxes, narrow coordinates: nothing but the frame
